@@ -7,7 +7,7 @@ CLAIMS = {
         "text": "Decides, for every path of _Packet.decode at once, that a decoded frame is only returned after a full-width "
                 "keyed-MD5 equality whose operands partition the packet, that the plaintext derives only from signed bytes and "
                 "that rejections are ProtocolErrors (explicit raises, and the may-raise analysis with the packet as taint source: no other "
-                "class escapes decode). Structural necessary conditions of the property; collision resistance is trusted. Security.sign hashes the whole of its argument, and LAN._read returns nothing around the verifying decoder.",
+                "class escapes decode). Structural necessary conditions of the property; collision resistance is trusted. Security.sign hashes the whole of its argument, and LAN._read returns nothing around the verifying decoder. The non-blocking drain swallows no rejection either.",
         "note": TRUST + "keyed MD5 changes when any covered bit changes",
         "technique": "value-flow terms + path-condition dominance on the ast (static analysis)",
     },
@@ -32,7 +32,7 @@ CLAIMS = {
         "text": "De-duplication decided from path conditions (task creation dominated by `source address not in seen set`, address added on "
                 "every creating path, one create_task site, the result built from one gather over every recorded task, nothing removes - or hands out a remover of - recorded tasks; the reported ip is the source address on every path); per-host containment decided by the may-raise analysis "
                 "with the datagram as taint source (escape set of datagram_received and of the per-host coroutine is empty); no shared "
-                "per-host state (who-writes).",
+                "per-host state (who-writes). The protocol cancels none of the tasks it recorded; per-run and shared state are checked by C18 itself.",
         "note": TRUST + "library model; asyncio.gather re-raises the first task exception; interleavings need no exploration once hosts share no state",
         "technique": "path-condition dominance + taint/may-raise effect analysis + who-writes (static analysis)",
     },
@@ -40,7 +40,7 @@ CLAIMS = {
         "text": "For every path through the capability record loop at once: the cursor advances by exactly 3+size on each back edge "
                 "(affine forms over value-flow terms), every read stays inside its record, the only loop-carried values are the cursor "
                 "and write-only accumulators (the result dict), merge is an in-order dict.update (skipped at most when the other page is empty) and get_capabilities pages/merges/updates in the "
-                "right order; the dict a response fills is not shared with class-level or module-level state. Together: parse(list) = fold of parse(record), independent of the split point. No memoised function hands out response objects and nothing a getter reads is derived from the dict at construction time only.",
+                "right order; the dict a response fills is not shared with class-level or module-level state. Together: parse(list) = fold of parse(record), independent of the split point. No memoised function hands out response objects and nothing a getter reads is derived from the dict at construction time only. The checksum formula obligation (C12.a) is imported.",
         "note": TRUST + "dict.update semantics",
         "technique": "cursor-advance / loop-carried-state analysis on value-flow terms (static analysis)",
     },
@@ -49,7 +49,7 @@ CLAIMS = {
                 "exemption is exactly the PropertiesResponse class selected by ids 0xB0/0xB1, checksum/CRC coverage ranges and the "
                 "accept condition (normal completion implies CRC-8 or additive match) are read off value-flow terms, and only "
                 "normally constructed responses can reach the valid list, _update_state, `supported` and `online`; the may-raise analysis "
-                "shows only the two validation exceptions caught by the frame loop escape Response.construct for any frame bytes. Device._send_command returns the frames of LAN.send unmodified, and C14's containment obligations are imported (a rejected frame is dropped, nothing escapes).",
+                "shows only the two validation exceptions caught by the frame loop escape Response.construct for any frame bytes. Device._send_command returns the frames of LAN.send unmodified, and C14's containment obligations are imported (a rejected frame is dropped, nothing escapes). The operations store no exposed attribute themselves; C12's CRC table and checksum formula obligations are imported.",
         "note": TRUST + "no arithmetic claim about the accept-either coincidence (1 in 255), stated in DESIGN.md",
         "technique": "must-pass-through + value-flow range/provenance analysis (static analysis)",
     },
@@ -59,7 +59,7 @@ CLAIMS = {
                 "40-byte header, AES-ECB(PKCS7(command)), MD5(everything before ‖ key)); the decoder's ranges, byte order and inverse "
                 "transform agree with it; key/mode/block pairing by constant folding; every emitted byte is interval-bounded; no packet byte is "
                 "left in a buffer the next call reuses (held-buffer mutation on value-flow terms). Holds "
-                "for all frames, ids and timestamps at once because lengths and values are symbolic. What LAN.send writes on a V2 connection is that encoding of the frame it was given, handed unmodified to the transport, and what it returns went through the decoder (pipeline connectivity).",
+                "for all frames, ids and timestamps at once because lengths and values are symbolic. What LAN.send writes on a V2 connection is that encoding of the frame it was given, handed unmodified to the transport, and what it returns went through the decoder (pipeline connectivity). The id wrapped is the constructor's device id unmodified, and the V2 receive path frames by the length field (reassembly premises re-run).",
         "note": TRUST + "AES-128-ECB / PKCS7 / MD5 implementations",
         "technique": "byte-sequence layout + affine length + interval abstract domains over value-flow terms (static analysis)",
     },
@@ -76,7 +76,7 @@ CLAIMS = {
         "text": "Segmentation independence is reduced to the inductive invariant of data_received (buffer = undelivered suffix, no "
                 "complete leading packet) and its premises are decided on value-flow terms: framing constant 8 agrees with both "
                 "encoders' affine lengths, tight `len(view) >= N` guard, delivered/kept partition at one N, append-not-replace, "
-                "untouched buffer on early returns, extraction loop ending only on an empty buffer, one FIFO put per packet. The reassembly buffer is per-connection and written only by the initialisers and the receive callback.",
+                "untouched buffer on early returns, extraction loop ending only on an empty buffer, one FIFO put per packet. The reassembly buffer is per-connection and written only by the initialisers and the receive callback. The receive queue is unbounded (put_nowait cannot fail).",
         "note": TRUST + "asyncio.Queue FIFO; bytearray.find / slicing semantics; the function is sequential, so no schedule needs exploring",
         "technique": "inductive-invariant premises checked on value-flow terms + affine lengths (static analysis)",
     },
@@ -94,7 +94,7 @@ CLAIMS = {
                 "16 settable fields at once (guard regions for the set-point and half-degree flag are abstract elements); the vendor "
                 "reference decode applied to the abstract 24-byte body returns every source field (left inverse ⇒ distinct states give "
                 "distinct bodies); no bit collisions, no lossy masks, every byte ≤ 255; the def-use chain setter → attribute → apply → command "
-                "attribute passes every requested value unchanged. All 62 set-points × modes × flags are one abstract state. The CLI's ordering obligation (nothing refreshes the device between assignment and apply, C20.e) is imported.",
+                "attribute passes every requested value unchanged. All 62 set-points × modes × flags are one abstract state. The CLI's ordering obligation (nothing refreshes the device between assignment and apply, C20.e) is imported. Deprecated setting aliases are transparent wrappers, and a setter writes no other field of the requested state.",
         "note": TRUST + "transcription of the vendor layout rows (each cites its Lua line, constants re-read from the Lua)",
         "technique": "abstract interpretation in a bit-field/interval/affine domain with trace partitioning (static analysis)",
     },
@@ -103,7 +103,7 @@ CLAIMS = {
                 "field a source over its full raw domain, don't-care bits free, symbolic length >= 16); in every guard region each of the 19 "
                 "attributes equals the reported field, optional fields are None exactly where the length does not cover them; "
                 "_parse_temperature's decision tree is checked leaf by leaf in a linear-form domain with the trunc relation (None iff "
-                "0xFF, within one degree, exact tenths in Celsius); _update_state stores every attribute on every way through its state branch, converts the custom fan speed inside a handler for the enum's ValueError and, with the getters, maps each attribute unchanged. The constructor hands every payload of reportable length to _parse, and the checksum formula the validator uses (C12.a) is imported.",
+                "0xFF, within one degree, exact tenths in Celsius); _update_state stores every attribute on every way through its state branch, converts the custom fan speed inside a handler for the enum's ValueError and, with the getters, maps each attribute unchanged. The constructor hands every payload of reportable length to _parse, and the checksum formula the validator uses (C12.a) is imported. No _missing_ hook turns unknown fan speeds into members, and refresh applies every response it collected.",
         "note": TRUST + "vendor layout rows (Lua lines cited); exact rationals stand for floats of halves/tenths",
         "technique": "abstract interpretation in a bit-field/linear-form domain with trace partitioning + def-use mapping (static analysis)",
     },
@@ -130,7 +130,7 @@ CLAIMS = {
         "text": "Typestate decided as invariants each call re-establishes: the data write in LAN.send is dominated by not-V3 / authenticated "
                 "/ completed authenticate(); single data-write and handshake-write sites; key guard in the encoder; session state is "
                 "per-instance and the factory constructs a fresh protocol per connection; counter' = (counter+1) mod 2^k, k ≤ 16, serialised as 2 bytes big-endian by both V3 encoders (layout domain); "
-                "`authenticated` and `_alive` lifetime predicates have the right polarity and constants (12 h). An assert is not taken for the handshake; C06's who-writes / proof obligations are imported.",
+                "`authenticated` and `_alive` lifetime predicates have the right polarity and constants (12 h). An assert is not taken for the handshake; C06's who-writes / proof obligations are imported. The device layer awaits its exchanges one at a time (no gather / task over sends on one connection).",
         "note": TRUST + "wall-clock behaviour is not decided; histories need no enumeration because each clause is a per-call invariant",
         "technique": "must-pass-through typestate + who-may-call + value-flow/affine-mod reasoning (static analysis)",
     },
@@ -157,7 +157,7 @@ CLAIMS = {
                 "network call, conversion is reached only for existing writable properties, the stored value's decision tree has exactly the "
                 "documented leaves (enum by value / raw int only for FanSpeed / by upper-cased name, bool via capitalised literal, number via "
                 "the default's type), every writable property has a non-None convertible default, and refresh → pop display → toggle-if-"
-                "different → setattr → apply-if-pending ordering holds; manual connect uses port 6444. No handler or exiting finally between _control and the interpreter replaces its exit status.",
+                "different → setattr → apply-if-pending ordering holds; manual connect uses port 6444. No handler or exiting finally between _control and the interpreter replaces its exit status. A catch-all handler in the runner re-raises or exits non-zero; deprecated aliases read the same default.",
         "note": TRUST + "argparse and README prose beyond these clauses; clause (d) is partly idiom-pinned (.upper() / .capitalize()), stated in DESIGN.md",
         "technique": "may/must event (dominance) analysis + value-flow decision-tree extraction + inventory (static analysis)",
     },
@@ -168,7 +168,7 @@ CLAIMS = {
                 "value encodings (ids and lengths re-read from the Lua); the response parser advances 4+len per record; breeze exclusivity "
                 "and BREEZE_CONTROL precedence from the gated terms; response handlers store backing fields, never the recording setters; "
                 "BreezeMode members carry the vendor's values (bounds re-read from the Lua); capability record id, reader name, response property and the PropertyId marked supported "
-                "agree along each of the 7 chains; the 5 property read-backs store whenever the property is present (not when truthy). Only apply takes ids out of the pending set; a properties response owns its value dict.",
+                "agree along each of the 7 chains; the 5 property read-backs store whenever the property is present (not when truthy). Only apply takes ids out of the pending set; a properties response owns its value dict. C15.d (merge direction, what _update_capabilities sees) is imported.",
         "note": TRUST + "vendor value encodings (Lua lines cited); read-back equality through a live device is not decided",
         "technique": "def-use chain + must/may event analysis + layout domain + cursor-advance analysis (static analysis)",
     },
@@ -177,7 +177,7 @@ CLAIMS = {
                 "states, then C10's abstract round trip to the vendor decode; C11's decode chain back to the getters; value-flow "
                 "connectivity of _send_command / LAN.send / _read / drains / V3 write+read; every response of an exchange reaches "
                 "_update_state (the valid list is returned as collected: no filtering, de-duplication or truncation), whose stores are overwrite-only; both data_received implementations satisfy the reassembly premises; the "
-                "transport obligations of C02/C04/C05/C12 are re-run, not assumed.",
+                "transport obligations of C02/C04/C05/C12 are re-run, not assumed. C13's (and through it C14's) obligations are imported: every valid frame of an exchange is used, every invalid one only dropped.",
         "note": TRUST + "AES/MD5/SHA behave as specified; byte equality through the ciphers and real TCP schedules are not explored (not needed: "
                 "receive callbacks are sequential)",
         "technique": "compositional static analysis: def-use chains + abstract round trips + reassembly-invariant premises",
